@@ -332,7 +332,7 @@ fn main() {
                     let id = f.known.unwrap();
                     let n = known_seen.entry(id).or_insert(0usize);
                     *n += 1;
-                    if *n == 1 {
+                    if *n == 1 && id != "undecided" {
                         writeln!(meta, "known {} case={} {}", id, i, f.msg).unwrap();
                     }
                 }
